@@ -3,7 +3,12 @@
 
    harness/gen_reader.py reads the Python `ast` of reader.py on every run and
    writes each function as a term of type `fundef` (Model/ReadGen.v), one DSL
-   constructor per Python construct.  Proofs/ReadGenProofs.v relates the
+   constructor per Python construct -- of the source brought into a normal
+   form first by rewrites that keep Python's meaning (listed in gen_reader.py,
+   section "normal form": they concern layout of control flow, annotations,
+   f-strings, wrappers and named temporaries, not what is computed), so that
+   sources differing only in those respects give the same term.
+   Proofs/ReadGenProofs.v relates the
    interpretation of those terms to the hand-written reader of Model/Reader.v,
    which all other proofs are about.  What is trusted is (a) that the translator
    maps each Python construct to the constructor named after it and (b) that
@@ -118,6 +123,27 @@
                      src.backward(src.position - start); an exception in f
                      propagates without roll-back.  The translator checks that
                      make_read_peek is literally that wrapper.
+   tuple(e)          [XToTuple] of a tuple or list.
+   e.strip()         [XStrip] of a str; of a Token: Token.strip (text stripped,
+                     position + number of leading blanks, or + 0 when all blank).
+   e.rstrip('cs')    [XRStrip] literal cs; of a Token the position is kept
+                     (Token.rstrip: text.find(stripped) = 0).
+   e.startswith(p)   [XStrStartsWith] e a str/Token (not the buffer); p a str/
+                     Token or a tuple of them (str.startswith of a tuple).
+   e is None / e is not None   [XIsNone]
+   D.get(k[, d]), D[k], k in D  for a module-level dict LITERAL D of reader.py
+                     (keys: string literals, values: tuples of int literals):
+                     [XLitGet / XLitIndex / XLitIn]; the literal is part of the
+                     term.  A literal tuple of strings is an XConst.
+   f % (a, ..)       f NOT a literal [XFormatDyn]: the text of f is scanned for
+                     conversions; with only %s %d %% and as many conversions as
+                     operands the result is VOpq, with another number of them
+                     TypeError (Python's 'not enough arguments for format string'
+                     / 'not all arguments converted'); any other conversion is
+                     OUnsup.  A %d operand must be an int or VOpq.  (For a
+                     literal f the translator has counted, and writes XOpaque.)
+   s + t             also of two plain str.
+   f'..{a}..'        the translator writes it as the equivalent %-formatting.
    Evaluation is left to right; an exception or OUnsup/OFuel in an operand that
    is evaluated propagates.
 
@@ -221,6 +247,15 @@ Inductive exp :=
 | XNew (c : exp) (items : exps) (star : option exp) (pos : exp)
 | XCall (f : fname) (args : exps)
 | XCallPeek (f : fname) (args : exps)
+| XToTuple (e : exp)
+| XStrip (e : exp)
+| XRStrip (e : exp) (cs : str)
+| XStrStartsWith (e p : exp)
+| XIsNone (e : exp)
+| XLitGet (d : list (str * value)) (key dflt : exp)
+| XLitIn (key : exp) (d : list (str * value))
+| XLitIndex (d : list (str * value)) (key : exp)
+| XFormatDyn (fmt : exp) (args : exps)
 with exps :=
 | XNil
 | XCons (e : exp) (l : exps).
@@ -400,6 +435,7 @@ Definition bin_op (o : binop) (a b : value) : option value :=
   | OAdd => match a, b with
             | VInt x, VInt y => Some (VInt (x + y))
             | VTuple x, VTuple y => Some (VTuple (x ++ y))
+            | VStr x, VStr y => Some (VStr (x ++ y))
             | _, _ => None
             end
   | OSub => match a, b with VInt x, VInt y => Some (VInt (x - y)) | _, _ => None end
@@ -553,6 +589,116 @@ Fixpoint parse_group_in (l : list (groupkind * ((tc * tc) * ((str * str) * str))
     else parse_group_in l' s
   end.
 Definition parse_group (s : str) : option expr := parse_group_in Tables.group_classes s.
+
+(* tuple(v) *)
+Definition to_tuple (v : value) : option value :=
+  match v with
+  | VTuple l => Some (VTuple l)
+  | VList l => Some (VTuple l)
+  | _ => None
+  end.
+
+(* v.strip() *)
+Definition strip_value (v : value) : option value :=
+  match v with
+  | VStr s => Some (VStr (strip s))
+  | VTok s p k =>
+    let r := strip s in
+    Some (VTok r (p + match r with [] => 0 | _ :: _ => Z.of_nat (length s - length (lstrip s)) end) k)
+  | _ => None
+  end.
+
+(* s.rstrip(cs) *)
+Fixpoint drop_in (cs s : str) : str :=
+  match s with
+  | [] => []
+  | c :: s' => if mem_N c cs then drop_in cs s' else s
+  end.
+Definition rstrip_chars (cs s : str) : str := rev (drop_in cs (rev s)).
+Definition rstrip_value (cs : str) (v : value) : option value :=
+  match v with
+  | VStr s => Some (VStr (rstrip_chars cs s))
+  | VTok s p k => Some (VTok (rstrip_chars cs s) p k)
+  | _ => None
+  end.
+
+Fixpoint texts_of (l : list value) : option (list str) :=
+  match l with
+  | [] => Some []
+  | v :: l' => match text_of v, texts_of l' with
+               | Some s, Some r => Some (s :: r)
+               | _, _ => None
+               end
+  end.
+
+(* s.startswith(p) *)
+Definition str_starts_with (v p : value) : option bool :=
+  match text_of v with
+  | Some s =>
+    match p with
+    | VTuple l => match texts_of l with
+                  | Some ps => Some (existsb (starts_with s) ps)
+                  | None => None
+                  end
+    | _ => match text_of p with
+           | Some q => Some (starts_with s q)
+           | None => None
+           end
+    end
+  | None => None
+  end.
+
+(* lookup in a dict literal *)
+Definition lit_lookup (d : list (str * value)) (key : value) : dres :=
+  match text_of key with
+  | Some s => match assoc_str s d with
+              | Some v => DFound v
+              | None => DMissing
+              end
+  | None => DUnsup
+  end.
+
+(* the conversions of a %-format string: false = %s, true = %d; '%%' is text;
+   None = something else *)
+Fixpoint fmt_convs (s : str) : option (list bool) :=
+  match s with
+  | [] => Some []
+  | c :: s1 =>
+    if N.eqb c 37 then
+      match s1 with
+      | [] => None
+      | d :: s2 =>
+        match fmt_convs s2 with
+        | None => None
+        | Some r => if N.eqb d 115 then Some (false :: r)
+                    else if N.eqb d 100 then Some (true :: r)
+                    else if N.eqb d 37 then Some r
+                    else None
+        end
+      end
+    else fmt_convs s1
+  end.
+
+Inductive fres := FOk | FTypeError | FUnsup.
+Fixpoint fmt_check (cs : list bool) (vs : list value) : fres :=
+  match cs, vs with
+  | [], [] => FOk
+  | c :: cs', v :: vs' =>
+    if c then match v with
+              | VInt _ | VOpq => fmt_check cs' vs'
+              | _ => FUnsup
+              end
+    else fmt_check cs' vs'
+  | _, _ => FTypeError
+  end.
+Definition fmt_dyn (f : value) (vs : list value) : fres :=
+  match text_of f with
+  | Some s => match fmt_convs s with
+              | Some cs => fmt_check cs vs
+              | None => FUnsup
+              end
+  | None => FUnsup
+  end.
 
 Inductive ures := UOk (v : value) | UExc (e : err) | UUnsup.
 
@@ -999,6 +1145,87 @@ Fixpoint eval (e : exp) (fr : frame) (b : buf) {struct e} : eres :=
       | r => r
       end
     | LX er => EX er | LU => EU | LF => EF
+    end
+  | XToTuple e1 =>
+    match eval e1 fr b with
+    | EV v fr1 b1 => of_opt (to_tuple v) fr1 b1
+    | r => r
+    end
+  | XStrip e1 =>
+    match eval e1 fr b with
+    | EV v fr1 b1 => of_opt (strip_value v) fr1 b1
+    | r => r
+    end
+  | XRStrip e1 cs =>
+    match eval e1 fr b with
+    | EV v fr1 b1 => of_opt (rstrip_value cs v) fr1 b1
+    | r => r
+    end
+  | XStrStartsWith e1 e2 =>
+    match eval e1 fr b with
+    | EV v1 fr1 b1 =>
+      match eval e2 fr1 b1 with
+      | EV v2 fr2 b2 =>
+        match str_starts_with v1 v2 with
+        | Some r => EV (VBool r) fr2 b2
+        | None => EU
+        end
+      | r => r
+      end
+    | r => r
+    end
+  | XIsNone e1 =>
+    match eval e1 fr b with
+    | EV v fr1 b1 => EV (VBool match v with VNone => true | _ => false end) fr1 b1
+    | r => r
+    end
+  | XLitGet d e1 e2 =>
+    match eval e1 fr b with
+    | EV v fr1 b1 =>
+      match eval e2 fr1 b1 with
+      | EV dflt fr2 b2 =>
+        match lit_lookup d v with
+        | DFound w => EV w fr2 b2
+        | DMissing => EV dflt fr2 b2
+        | DUnsup => EU
+        end
+      | r => r
+      end
+    | r => r
+    end
+  | XLitIn e1 d =>
+    match eval e1 fr b with
+    | EV v fr1 b1 =>
+      match lit_lookup d v with
+      | DFound _ => EV (VBool true) fr1 b1
+      | DMissing => EV (VBool false) fr1 b1
+      | DUnsup => EU
+      end
+    | r => r
+    end
+  | XLitIndex d e1 =>
+    match eval e1 fr b with
+    | EV v fr1 b1 =>
+      match lit_lookup d v with
+      | DFound w => EV w fr1 b1
+      | DMissing => EX KeyError
+      | DUnsup => EU
+      end
+    | r => r
+    end
+  | XFormatDyn e1 l =>
+    match eval e1 fr b with
+    | EV f fr1 b1 =>
+      match eval_list l fr1 b1 with
+      | LV vs fr2 b2 =>
+        match fmt_dyn f vs with
+        | FOk => EV VOpq fr2 b2
+        | FTypeError => EX TypeError
+        | FUnsup => EU
+        end
+      | LX er => EX er | LU => EU | LF => EF
+      end
+    | r => r
     end
   end
 with eval_list (l : exps) (fr : frame) (b : buf) {struct l} : lres :=
